@@ -12,9 +12,12 @@ import (
 
 	"github.com/dave/dst"
 	"github.com/dave/dst/decorator"
+	"github.com/dave/dst/decorator/resolver/goast"
+	"github.com/dave/dst/decorator/resolver/gotypes"
 
 	"verif/internal/corpus"
 	"verif/internal/fw"
+	"verif/internal/gen"
 	"verif/internal/refl"
 )
 
@@ -153,6 +156,56 @@ func c18Graph(c *fw.Ctx, label, side string, aids []*ast.Ident, dids []*dst.Iden
 	return len(alabel)
 }
 
+// c18Pairs keeps the ast identifiers that have a dst identifier of their own (under import
+// management the two identifiers of a package-qualified name are merged into their selector's
+// counterpart and have none).
+func c18Pairs(aids []*ast.Ident, nodeOf func(ast.Node) dst.Node) ([]*ast.Ident, []*dst.Ident) {
+	var pa []*ast.Ident
+	var pd []*dst.Ident
+	for _, a := range aids {
+		if di, ok := nodeOf(a).(*dst.Ident); ok && di != nil {
+			pa = append(pa, a)
+			pd = append(pd, di)
+		}
+	}
+	return pa, pd
+}
+
+// c18Typed: type-checked generated programs decorated with the go/types resolver, with and without
+// ResolveLocalPath.
+func c18Typed(c *fw.Ctx, id string) {
+	c.Case(id, func() {
+		r := c.Rand(id)
+		p := gen.GenProgram(r, 1+r.Intn(3))
+		srcs := map[string]string{}
+		for _, f := range p.Files {
+			srcs[f.Name] = f.Src
+		}
+		files, info, _, err := p.Check(srcs, p.PkgPath)
+		if err != nil {
+			c.Count("inconclusive_program_rejected_by_go_types", 1)
+			return
+		}
+		for k, af := range files {
+			for _, resolveLocal := range []bool{false, true} {
+				d := decorator.NewDecoratorWithImports(p.Fset, p.PkgPath, gotypes.New(info.Uses))
+				d.ResolveLocalPath = resolveLocal
+				if _, err := d.DecorateFile(af); err != nil {
+					c.Violate("decorate-error", "decorate-error:gotypes", id+": "+err.Error(), p.Files[k].Src)
+					continue
+				}
+				nodeOf := func(a ast.Node) dst.Node { return d.Dst.Nodes[a] }
+				pa, pd := c18Pairs(identSeqAst(af), nodeOf)
+				n := c18Graph(c, fmt.Sprintf("%s/%s/resolveLocal=%v", id, p.Files[k].Name, resolveLocal), "decorator+gotypes", pa, pd, nodeOf, p.Files[k].Src)
+				c.Count("typed_files", 1)
+				if n >= 3 {
+					c.Nontrivial(id, p.Files[k].Name, fmt.Sprint(resolveLocal))
+				}
+			}
+		}
+	})
+}
+
 func scopeNames(s *ast.Scope) string {
 	if s == nil {
 		return "<nil>"
@@ -206,6 +259,20 @@ func c18File(c *fw.Ctx, id string, name string, src []byte) {
 			}
 			if (af.Scope.Outer == nil) != (df.Scope.Outer == nil) {
 				c.Violate("decorator/file-scope", "decorator/file-scope:outer", id+": Outer chain differs", string(src))
+			}
+		}
+		// the same file decorated with import management (syntax-only resolver): identifiers that have
+		// a counterpart of their own carry the same object graph
+		if fset2, af2 := token.NewFileSet(), (*ast.File)(nil); true {
+			af2, err = parser.ParseFile(fset2, name, src, parser.ParseComments)
+			if err == nil {
+				d2 := decorator.NewDecoratorWithImports(fset2, "example.com/self", goast.New())
+				if df2, err := d2.DecorateFile(af2); err == nil {
+					pa, pd := c18Pairs(identSeqAst(af2), func(a ast.Node) dst.Node { return d2.Dst.Nodes[a] })
+					c18Graph(c, id, "decorator+goast", pa, pd, func(a ast.Node) dst.Node { return d2.Dst.Nodes[a] }, string(src))
+					c.Count("files_with_import_management", 1)
+					_ = df2
+				}
 			}
 		}
 		// (3) restore with Extras: dst graph -> ast graph
@@ -533,6 +600,13 @@ func runC18(c *fw.Ctx) {
 		idx++
 		if c.Mine(i) {
 			c18File(c, "snippet:"+k, k+".go", []byte(snips[k]))
+		}
+	}
+	for k := 0; k < c.Pick(150, 4000); k++ {
+		i := idx
+		idx++
+		if c.Mine(i) {
+			c18Typed(c, fmt.Sprintf("typed-program:%d", k))
 		}
 	}
 	files := corpus.Sample(c.Rand("files"), c.Pick(300, 0))
